@@ -11,6 +11,12 @@ package validate
 // input. A Validator is built once around a resolved schema and never modified: its methods
 // assume that schema to be present (C16 quantifies over resolved schemas).
 //@ recvreq Validator self.schema != nil
+// New stores the schema it is given (assumed: the only Options the package exports, WithStrict and
+// WithPermissive, set the mode and leave the schema alone; an Option is an arbitrary function value).
+//@ func New
+//@   trusted
+//@   results r
+//@   ensures r != nil && r.schema == s
 //@ sweep C16 entity.go request.go check_value.go request_env.go ext_funcs.go validator.go wellformed
 
 // Every literal value gets a type or an error; values that are not bool,
